@@ -19,7 +19,7 @@ def live(c):
     return c[0] == 0 or (c[0] == 1 and not c[1])
 
 
-def cooperate(d, kw, limit_s):
+def cooperate(d, kw, limit_s, open_name='open_ok'):
     """the peer behaves: returns (events applied, established_at or None)"""
     events = []
     start = d.sim.now
@@ -44,7 +44,7 @@ def cooperate(d, kw, limit_s):
                     break
         if e is None and proto is not None and conns[proto][0] == 1 and not conns[proto][1]:
             if st[0] == 4:
-                e = ('data', proto, M['open_ok'])
+                e = ('data', proto, M[open_name])
             elif st[0] == 5:
                 e = ('data', proto, M['keepalive'])
         if e is None:
@@ -121,16 +121,24 @@ def run(ctx):
                 d.apply(e)
             st = d.state()
             n += 1
+            if not st[4]:
+                viol.append({'what': 'automatic restart is switched off although no operator stop was issued (state %d)' % st[0],
+                             'config': kw, 'events': [sc.name_of(x) for x in path], 'known': None})
+                continue
             if not pending(st):
                 viol.append({'what': 'no reconnection pending in state %d (timers %r)' % (st[0], st[6]),
                              'config': kw, 'events': [sc.name_of(x) for x in path], 'known': None})
                 continue
             if sum(1 for c in st[7] if live(c)) > 1:
                 continue
-            ev1, t_est = cooperate(d, kw, limit)
+            # the peer may come back with another BGP identifier (its router-id changed): every second state is
+            # continued that way when the history already contains an OPEN of the old identifier
+            had_open = any(e[0] == 'data' and sc.name_of(e)[-1].startswith('open') for e in path)
+            open_name = 'open_ok_id2' if (had_open and n % 2 == 0) else 'open_ok'
+            ev1, t_est = cooperate(d, kw, limit, open_name)
             if t_est is None:
                 viol.append({'what': 'cooperative peer: not Established within idle_hold + connect_retry + 1 = %d s' % limit,
-                             'config': kw, 'events': [sc.name_of(x) for x in path],
+                             'config': kw, 'events': [sc.name_of(x) for x in path], 'peer_open': open_name,
                              'continuation': [sc.name_of(x) for x in ev1], 'known': None})
                 continue
             ev2, up = stays_up(d, 3)
@@ -148,7 +156,8 @@ def run(ctx):
             'rule': 'every abstract state reached by the adversarial exploration (refused/failed connections, resets, protocol '
                     'errors, malformed/unacceptable messages, timer expiries; no operator stop) is checked for a pending '
                     'reconnection, then continued with a cooperative peer: Established within idle_hold + connect_retry + 1 s of '
-                    'virtual time and still Established three hold times later; several timer configurations',
+                    'virtual time and still Established three hold times later (the returning peer keeps or changes its BGP identifier); '
+                    'several timer configurations',
             'samples': samples, 'mismatches': mism_all + mism2, 'violations': viol, 'extra': stats_all}
 
 
